@@ -226,7 +226,10 @@ def oracle(case):
             if not (min(rel) <= tb <= max(rel)):
                 continue
             ta = getattr(a, "threshold_at_" + m)(r)
-            if abs(ta - tb) > 8 * np.spacing(max(abs(ta), abs(tb), 1.0)):
+            # equal in R (proved); in floats the two objects reach the interpolation weight through different roundings of a
+            # count of magnitude N: the weight differs by O(N eps), the threshold by that times the spread of the scores
+            n_tot = len(allv) + ep + en
+            if abs(ta - tb) > 8 * n_tot * np.finfo(float).eps * max(abs(max(allv)), abs(min(allv)), max(allv) - min(allv), 1.0):
                 return f"threshold_at_{m}({r!r}): virtual {ta!r} vs materialised {tb!r} {info}"
     return None
 
